@@ -29,6 +29,9 @@ SPELL = {
     "cfg_depr": "#[cfg_attr(rustfmt, rustfmt_skip)]",
     "cfg_cfg_skip": "#[cfg_attr(rustfmt, cfg_attr(rustfmt, rustfmt::skip))]",
     "cfg_multi": "#[cfg_attr(rustfmt, rustfmt::skip, allow(unused))]",
+    "nb_before": "#[nb(x = 1 + 2, y = %z)]\n#[rustfmt::skip]",
+    "nb_after": "#[rustfmt::skip]\n#[nb(x = 1 + 2, y = %z)]",
+    "doc_before": "/// documented\n#[rustfmt::skip]",
 }
 # node kind -> (text around {A} = attribute and {N} = node, node text)
 NODES = {
@@ -153,7 +156,8 @@ def render(sc):
             raise ToolError(f"unknown target {t}")
     else:
         tpl, node = NODES[sc["node"]]
-        node = node.replace("@AI@", SPELL[sc["spelling"]].replace("#[", "#![", 1))
+        node = node.replace("@AI@", SPELL[sc["spelling"]].replace("#[", "#![").replace("/// ", "//! ")
+                            .replace("\n", "\n    "))
         inner = tpl.format(A=SPELL[sc["spelling"]], N=node)
         marker = node
     path = sc["path"]
@@ -242,6 +246,14 @@ def optouts(v, scen, sc):
                     "generated_line5": "// 1\n// 2\n// 3\n// 4\n// @generated\n"}[o]
             ttext = head + ugly
             args = ["--config", "format_generated_files=false"]
+        elif o == "inner_skip_twopaths":
+            ttext = "#![rustfmt::skip]\n" + ugly
+            root_text = ('#[cfg_attr(unix, path = "t.rs")]\n#[cfg_attr(windows, path = "t.rs")]\n'
+                         "mod  t ;\nmod  sib ;\n" + ugly)
+        elif o == "inner_skip_path_default":
+            ttext = "#![rustfmt::skip]\n" + ugly
+            root_text = ('#[cfg_attr(unix, path = "sib.rs")]\n#[cfg_attr(windows, path = "t.rs")]\n'
+                         "mod  t ;\n" + ugly)
         elif o == "skipped_mod_decl":
             root_text = "#[rustfmt::skip]\nmod  t ;\nmod  sib ;\n" + ugly
         elif o == "skipped_mod_decl_nonroot":
@@ -381,7 +393,7 @@ def run(tier, seed, replay=None):
     cov = {"evaluations": len(jobs) + n_oo, "distinct_nontrivial": len(nontriv),
            "rule": "Skip.tla scenarios (paths of depth <= 3 over 14 constructs, declarations on every "
                    "declaring construct and on the crate, 3 settings of skip_macro_invocations, 8 name "
-                   "targets, 48 node kinds x 6 spellings) rendered and formatted; quick = every cell "
+                   "targets, 48 node kinds x 9 spellings) rendered and formatted; quick = every cell "
                    "(target/node, spelling/cfg, declaring constructs, innermost construct) once plus a "
                    "seed-chosen sample; distinct_nontrivial = distinct (target or node, innermost "
                    "construct) cells; plus 17 whole-file opt-outs x 4 emit modes through the binary",
